@@ -367,6 +367,25 @@ def clause_additive(ctx, pg, cfg, params):
                 if differs(obj, second, floor):
                     report(ctx, f'additive:object-window:{stat}', cfg, 'additive', dict(windows=[[a, b]], stats=[stat]),
                            a=a, b=b, coalescent_start_end=obj, moment_a_b=second, tolerance=dict(rel=REL, abs=floor))
+                    continue
+                # ... also for the second-order properties of that object: the centred second moment of the window is the
+                # difference of the centred accumulation curve at its two ends, and does not depend on what was asked before
+                cur = arr(dist(make(pg, cfg)).accumulate(2, [a, b], center=True))
+                want = cur[..., 1] - cur[..., 0]
+                call2 = arr(dist(make(pg, cfg)).moment(2, start_time=a, end_time=b, center=True))
+                v_first = arr(dist(c).var)
+                c2 = make(pg, cfg, start_time=a, end_time=b)
+                d2 = dist(c2)
+                _ = (d2.mean, d2.m2)
+                v_later = arr(d2.var)
+                floor2 = 1e-10 * (n_tot(cfg) * max(b, 1e-300)) ** 2
+                ctx.count('clause:additive:object-window-var')
+                for name, got in (('moment(2, start, end)', call2), ('.var of Coalescent(start_time, end_time)', v_first),
+                                  ('.var after .mean and .m2 on the same object', v_later)):
+                    if differs(got, want, floor2):
+                        report(ctx, f'additive:object-window-var:{stat}', cfg, 'additive', dict(windows=[[a, b]], stats=[stat]),
+                               a=a, b=b, route=name, observed=got, centred_curve_difference=want, tolerance=dict(rel=REL, abs=floor2))
+                        break
 
 
 # ----------------------------------------------------------------------------------------- (5) monotone raw curves
